@@ -23,7 +23,7 @@ def build_cmd_from_demo(path, old_root, new_root, demo_dir):
     for l in lines:
         if l.endswith("\\"): cur += l[:-1] + " "
         else: joined.append(cur + l); cur = ""
-    cands = [l.strip() for l in joined if re.search(r"\b(g\+\+|gcc|clang\+\+|cc)\b", l) and " -o" in l or re.search(r"\b(g\+\+|gcc)\b.*demo", l)]
+    cands = [l.strip() for l in joined if re.search(r"(?<!\w)(g\+\+|gcc|clang\+\+)(?![\w+])", l) and " -o" in l]
     if not cands: return None
     cmd = cands[0]
     cmd = cmd[re.search(r"(g\+\+|gcc|clang\+\+)", cmd).start():]
@@ -66,6 +66,7 @@ def main():
             rb = sh(cmdw, cwd=scratch)
             if rb.returncode != 0: return rb
             exe = re.search(r"-o\s+(\S+)", cmdw).group(1)
+            if not os.path.isabs(exe): exe = os.path.join(scratch, exe)
             try: return sh(exe, cwd=os.path.dirname(exe) or scratch, timeout=600)
             except subprocess.TimeoutExpired:
                 class T: returncode = 124; stdout = "timeout"
